@@ -12,7 +12,7 @@ MODEL_TARGETS = ["Model/Cron"]
 HARNESS = [
     {"bin": "cron", "tag": "cron",
      "quick": {"cases": 32, "len": 2500, "shards": 16},
-     "thorough": {"cases": 400, "len": 6000, "shards": 64},
+     "thorough": {"cases": 240, "len": 5000, "shards": 64},
      "search": {"cases": 60, "len": 4000},
      "timeout": 6000},
 ]
